@@ -82,7 +82,7 @@ def run(ctx):
         return torch.cat([v.real, v.imag]) if torch.is_complex(v) else v
 
     fams = ["gaussian", "uniform", "ofdm", "heavy", "constant", "alternating"]
-    shapes = [(16,), (1, 16), (3, 16), (2, 3, 8), (2, 2, 2, 4)] if quick else [(16,), (33,), (1, 16), (1, 1, 16), (3, 16), (5, 7), (2, 3, 8), (2, 2, 2, 4), (4, 1, 6)]
+    shapes = [(16,), (1, 16), (1, 3, 8), (1, 2, 2, 4), (3, 16), (2, 3, 8), (2, 2, 2, 4)] if quick else [(16,), (33,), (1, 16), (1, 1, 16), (1, 3, 8), (1, 2, 2, 4), (3, 16), (5, 7), (2, 3, 8), (2, 2, 2, 4), (4, 1, 6)]
     scales = [1e-2, 1.0, 37.0, 1e4]
     targets = [1e-3, 0.5, 1.0, 20.0, 1e3]
     gen = torch.Generator().manual_seed(rng.randrange(1 << 30))
@@ -302,6 +302,39 @@ def run(ctx):
         for nm, out in (("CompositeConstraint", K.CompositeConstraint(cs)(x)), ("apply_constraint_chain", apply_constraint_chain(cs, x)), ("combine_constraints", combine_constraints(cs)(x))):
             if not torch.allclose(out, seq, rtol=1e-6, atol=0, equal_nan=True):
                 ctx.violation("C08/%s/sequential" % nm, "%s of %s differs from applying the parts in order (shape %s)" % (nm, [type(c).__name__ for c in cs], shape), {"parts": [type(c).__name__ for c in cs], "shape": list(shape)})
+    # nested composites: a composite used as a part of another composite (directly, through combine_constraints, through add_constraint)
+    for trial in range(30 if quick else 300):
+        mkpart = [lambda: K.TotalPowerConstraint(rng.choice(targets)), lambda: K.AveragePowerConstraint(rng.choice(targets)), lambda: K.PeakAmplitudeConstraint(rng.choice([0.1, 1.0, 5.0])),
+                  lambda: K.PAPRConstraint(rng.choice([1.5, 2.0, 4.0]))]
+        inner = [rng.choice(mkpart)() for _ in range(rng.randint(2, 3))]
+        if trial % 3 == 0:
+            inner_c = create_ofdm_constraints(total_power=rng.choice([1.0, 50.0]), max_papr=rng.choice([2.0, 4.0]), is_complex=False, peak_amplitude=rng.choice([None, 0.5]))
+            inner = list(inner_c.constraints)
+        else:
+            inner_c = K.CompositeConstraint(inner)
+        before = [rng.choice(mkpart)() for _ in range(rng.randint(0, 2))]
+        after = [rng.choice(mkpart)() for _ in range(rng.randint(0, 1))]
+        shape = rng.choice([(64,), (1, 64), (3, 64)])
+        x = signal(rng.choice(fams[:4]), shape, False, "f32", gen) * rng.choice(scales)
+        flat = before + inner + after
+        seq = x
+        for c in flat:
+            seq = c(seq)
+        built = {"CompositeConstraint(nested)": K.CompositeConstraint(before + [inner_c] + after), "combine_constraints(nested)": combine_constraints(before + [inner_c] + after),
+                 "apply_constraint_chain(nested)": None}
+        added = K.CompositeConstraint(list(before)) if before else K.CompositeConstraint([K.IdentityConstraint()])
+        added.add_constraint(inner_c)
+        for c in after:
+            added.add_constraint(c)
+        built["add_constraint(nested)"] = added
+        ctx.count("composite-cases")
+        ctx.nontriv(("nested", trial))
+        for nm, comp in built.items():
+            out = apply_constraint_chain(before + [inner_c] + after, x) if comp is None else comp(x)
+            if not torch.allclose(out, seq, rtol=1e-5, atol=0, equal_nan=True):
+                ctx.violation("C08/%s/sequential" % nm.split("(")[0], "%s: %s around the nested composite %s differs from applying all parts in declared order (shape %s; total power %.5g vs %.5g)" % (
+                    nm, [type(c).__name__ for c in before] + ["..."] + [type(c).__name__ for c in after], [type(c).__name__ for c in inner], shape, pw(out), pw(seq)),
+                    {"parts": [type(c).__name__ for c in flat], "shape": list(shape)})
     for trial in range(40 if quick else 400):
         T = rng.choice([0.5, 1.0, 16.0, 400.0])
         m = rng.choice([3.0, 4.0, 6.0])
